@@ -671,6 +671,13 @@ func (c *Conn) readRecordOrCCS(expectChangeCipherSpec bool) error {
 			return c.in.setErrorLocked(c.sendAlert(err.(alert)))
 		}
 
+		// 乱序先到、尚不能处理的 CCS 在登记重放窗口之前丢弃：
+		// 对端重传的 flight 与原报文逐字节相同（记录序号相同），登记后重传会被当作重放丢掉。
+		if typ == recordTypeChangeCipherSpec && !expectChangeCipherSpec && !handshakeComplete && c.handBuf.Len() == 0 {
+			c.rawInputBuf = c.rawInputBuf[recordHeaderLen+n:]
+			continue
+		}
+
 		// 重放检查（解密成功后执行，RFC 6347 §4.1.2.6）
 		if !c.replayWindow.check(seqNum) {
 			// 重放检测：静默丢弃
